@@ -6,6 +6,7 @@ import BqVerif.Proofs.PickleRec
 import BqVerif.Proofs.PickleErr
 import BqVerif.Proofs.CircKahn2
 import BqVerif.Proofs.PickleKey
+import BqVerif.Proofs.PickleKeyNec
 /-!
 C16 — objects shipped between processes arrive equal to what was sent.
 
@@ -183,6 +184,15 @@ theorem C16_keyed_requires_injective {K : Type} [DecidableEq K] (c : Circ) (key 
     c.KeyInj key ∧ c.keyInjB key = true :=
   ⟨keyInj_of_roundtrip c key tbl h, (keyInjB_iff c key).2 (keyInj_of_roundtrip c key tbl h)⟩
 
+/-- **`rebuild (reduce c) = c` ⇔ the key separates the gates of `c`** — for every well-formed
+circuit and every key.  (⇐) is `C16_reduce_rebuild_keyed`; (⇒): `rebuild_circuit` is sound (the
+cycles it returns are the payload's groups, each marshalled operation rebuilt through its table
+slot, `rebuild_sound`), so a payload that rebuilds to `c` returned every operation as itself. -/
+theorem C16_reduce_rebuild_keyed_iff {K : Type} [DecidableEq K] (c : Circ) (hi : c.Inv)
+    (hr : c.radOk = true) (key : GateId → K) :
+    (c.reduceKey key c.iterCyc).rebuild = .ok c.canon ↔ c.KeyInj key :=
+  ⟨keyInj_of_rebuild c hi.1 key, fun h => (C16_reduce_rebuild_keyed c hi hr key h).1⟩
+
 /-- the full identity is a separating key for every circuit (this is what `Model/Pickle` uses) -/
 theorem C16_keyInj_id (c : Circ) : c.KeyInj (fun g => g) := fun _ _ _ _ h => h
 
@@ -223,6 +233,14 @@ example : (exC.reduceKey GateId.gid exC.iterCyc).rebuild = .ok exC.canon :=
     ((keyInjB_iff exC GateId.gid).1 (by decide))).1
 example : lvlC.KeyInj (fun g => g) ∧ lvlC.keyInjB (fun g => g) = true :=
   C16_keyed_requires_injective lvlC _ (keyTable (fun g => g) lvlC.gates) (by decide)
+example : ¬ lvlC.KeyInj coarseKey := by
+  intro h
+  have h1 := (C16_reduce_rebuild_keyed_iff lvlC lvlC_inv (by decide) coarseKey).2 h
+  rw [C16_coarse_key_witness.2.1] at h1
+  exact C16_coarse_key_witness.2.2.2.1 (Except.ok.inj h1)
+example : lvlC.KeyInj (fun g => g) :=
+  (C16_reduce_rebuild_keyed_iff lvlC lvlC_inv (by decide) _).1
+    (by rw [← iterKahn_eq_iterCyc lvlC lvlC_inv]; exact C16_coarse_key_witness.2.2.2.2.2.2)
 /-- the hypothesis of `C16_keyed_requires_injective` fails for the coarse key (contrapositive) -/
 example : ¬ ∀ o ∈ lvlC.ops, mkOp (keyTable coarseKey lvlC.gates)
     (marshalKey coarseKey (keyTable coarseKey lvlC.gates) o) = .ok o := by decide
